@@ -330,6 +330,10 @@ class Lexer:
                     "Unclosed tag: <%%%s>" % self.tag[-1].keyword,
                     **self.exception_kwargs,
                 )
+            if match.end() == match.start():
+                # an empty body: match_reg() stepped past the "<" of
+                # the closing tag, which is still to be matched
+                self.match_position = match.end()
             self.append_node(parsetree.Text, match.group(1))
             return self.match_tag_end()
         return True
@@ -398,6 +402,11 @@ class Lexer:
 
         if match:
             text = match.group(1)
+            if not text and match.end() == match.start():
+                # stopped right away at a "</%", "%" or "##" that no other
+                # matcher recognized as a directive; match_reg() steps
+                # past that character, so it is plain text
+                text = self.text[match.start() : self.match_position]
             if text:
                 self.append_node(parsetree.Text, text)
             return True
